@@ -329,6 +329,34 @@ def propagate_without_polarization_delays_and_attenuates():
         prove(cls[-22:] + ":nothing-to-do", path.propagate() is None)
 
 
+@harness(clause="propagate")
+def propagate_tabulates_the_attenuation_on_each_signal_s_own_frequencies():
+    """history: the same path object propagates a second signal of the same length on a different sampling step - its
+    frequency factor is again the path's attenuation tabulated on that signal's own frequency grid"""
+    sig, times, vals, path, pol, e, r, tof, rs, rp, grids, att_calls, interp_calls, filt = _propagate_setup(SP, True)
+    n = len(times)
+    t2 = symarr("times_2", n)
+    assume(Not(eq(t2[1] - t2[0], times[1] - times[0])))
+    sig2 = new("pyrex.signals.Signal", t2, symarr("values_2", n), value_type="field")
+    out1 = path.propagate(sig)
+    out2 = path.propagate(sig2)
+    prove("each-output-filtered-once", And(len(filt) == 2, filt[0][0] is out1, filt[1][0] is out2))
+    i = fresh_index("i", n)
+    prove("second-output-on-its-own-grid-delayed-by-tof", eq(out2.times[i], t2[i] + tof))
+    f = real("f")
+    before = len(interp_calls)
+    resp = filt[1][1](f)
+    prove("second-factor-is-the-attenuation-at-that-frequency", eq(resp, ATT(f)))
+    prove("second-factor-interpolates-one-table", len(interp_calls) == before + 1)
+    grid = interp_calls[-1][1]
+    prove("second-table-is-on-the-second-signal's-own-frequencies",
+          And(grid.n == 2 * n, eq(grid.d, t2[1] - t2[0]), grid.sorted is True, interp_calls[-1][2] == ("attenuation-values", grid)))
+    before = len(interp_calls)
+    resp1 = filt[0][1](f)
+    grid1 = interp_calls[-1][1]
+    prove("first-table-is-still-on-the-first-signal's-frequencies", And(len(interp_calls) == before + 1, grid1.n == 2 * n, eq(grid1.d, times[1] - times[0])))
+
+
 # ---------------------------------------------------------------------------
 # uniform-ice paths: attenuation by stepping along straight segments.  The product over a data-dependent number of
 # steps is outside the executor's subset; the horizontal-segment branch is proved, the rest is a bounded stand-in.
